@@ -101,7 +101,7 @@ type e2eRun struct {
 
 func (h *harness) runE2EOne(id int, c *tcase, sub, rsub int, rng *rand.Rand) e2eRun {
 	const mode = "server"
-	r := &rec{K: "e2e", ID: id, Sub: -1, Rsub: -1, Mode: mode, Ak: c.Ak, Pl0: "ntp", Outs: []adgram{}, Cauth: c.Cauth, Rm: c.Rm, Cli: "-"}
+	r := &rec{K: "e2e", ID: id, Sub: -1, Rsub: -1, Mode: mode, Ak: c.Ak, Pl0: "ntp", Outs: []adgram{}, Cauth: c.Cauth, Rm: c.Rm, Rext: "e2e", Cli: "-"}
 	run := e2eRun{r: r}
 	R := h.listen(h.w.ipP) // the relay
 	defer R.Close()
@@ -198,6 +198,9 @@ func (h *harness) runE2EOne(id int, c *tcase, sub, rsub int, rng *rand.Rand) e2e
 			}
 		}
 	}
+	if c.Ext == "hbh" {
+		wire = insertHBH(wire)
+	}
 	q, qp := h.w.project(mode, wire, pm)
 	if !qp.ok {
 		panic("the relay produced an undecodable request")
@@ -260,6 +263,10 @@ func (h *harness) runE2EOne(id int, c *tcase, sub, rsub int, rng *rand.Rand) e2e
 			r.Rsub = tamper(resp, c.Rm, rsub, rng)
 		}
 	}
+	if c.Rext == "hbh" {
+		resp = insertHBH(resp)
+	}
+	r.Rext = c.Rext
 	rp := parse(resp)
 	st, spi, algo, _ := rp.authState(&h.w)
 	r.RHasAuth = st != "absent"
